@@ -147,4 +147,47 @@ CHECKS = {
         "require": ["c17:states_probed", "c17:states_with_3_batches", "op:liquid_unstake:ok", "op:withdraw:ok"],
         "assumptions": [SIM],
     },
+    "C18": {
+        "level": "exploration",
+        "lanes": [("migrate", lane("c18", {"stores": 12}, {"stores": 100000000}))],
+        "rule": "pre-upgrade stores synthesised by the harness: a random history on the current contract, then the packet and pending-reply maps rewritten into the 1.0.0 byte layout (written by the harness itself) with random packets in every status; after V1_0_0ToV1_1_0 every record is compared (key, sequence, amount, status, denom, receiver), every other raw key must be byte-identical, recovery and acks must work; hand-written 0.4.18 / 0.4.20 configs are translated field by field; gate matrix 10 stored versions x 4 names x 3 paths (+ treasury 8 x 3) => success iff name matches and version is the path's source, refused => storage identical; distinct = gate cells + legacy store shapes",
+        "require": ["c18:v1_1_0_migrated", "c18:v0_4_20_migrated", "c18:v1_0_0_migrated", "c18:gate_accepted", "c18:gate_refused", "c18:post_migration_recovery", "c18:treasury_gate"],
+        "assumptions": [SIM, "transaction atomicity of migrate is the host's (simulated all-or-nothing); crash points inside a migration are not observable at the contract boundary", "legacy layouts are those of cw-storage-plus Map<u64,_> / Item and serde-json-wasm (u128 as string); a self-check confirms the current contract writes the same key layout"],
+    },
+    "C19": {
+        "level": "exploration", "builds": ["default", "miniwasm"], "all_lanes_both": True,
+        "lanes": [("tf", lane("c19", {"histories": 6, "steps": 150}, {"histories": 400, "steps": 400}))],
+        "post": "c19_compare",
+        "rule": "the same seeded histories run on both cargo feature builds against the matching simulated chain; every create-denom / mint / burn message is decoded by the harness's wire reader (URL of the chain's module, sender and holder = contract, denom, amount = reference) and compared with its canonical re-encoding; a build on the other chain kind must fail to instantiate; per-step behaviour digests (result, every query, all ledgers, events with token-factory messages abstracted) of the two builds are compared for equality",
+        "require": ["c19:MsgCreateDenom", "c19:MsgMint", "c19:MsgBurn", "c19:other_chain_refused", "c19:histories_compared"],
+        "assumptions": [SIM],
+    },
 }
+
+
+def c19_compare(results, V, binpath, seed):
+    """results: list of (name, rc, res, err); compares the per-step digests of the two builds."""
+    import subprocess
+    by = {"default": {}, "miniwasm": {}}
+    for (name, rc, res, err) in results:
+        if res is None:
+            continue
+        lane_, b, i = name.split("/")
+        for k, v in res.get("extra", {}).items():
+            if k.startswith("digest:"):
+                by[b][k] = v
+    viol = []
+    compared = 0
+    for k, d in by["default"].items():
+        m = by["miniwasm"].get(k)
+        if m is None:
+            viol.append({"property": "C19", "what": f"history {k} ran on the default build only", "sig": "history missing in one build", "replay": ""})
+            continue
+        compared += 1
+        if d != m:
+            a, b = d.split(","), m.split(",")
+            step = next((i for i, (x, y) in enumerate(zip(a, b)) if x != y), min(len(a), len(b)))
+            _, shard, h = k.split(":")
+            path = f"{V}/target/c19-traces/Osmosis/{seed}-{shard}-{h}.json"
+            viol.append({"property": "C19", "what": f"the two builds diverge at step {step} of history {k} (same operations, different observable behaviour)", "sig": "builds diverge", "replay": path})
+    return viol, {"c19:histories_compared": compared}
